@@ -28,7 +28,7 @@ EOS = "▪"
 RULE = (
     "case = history: (grammar BOOL or FLOAT, object kind in Earley / rescaled Earley / IncrementalCKY / "
     "EarleyLM / rescaled EarleyLM / CKYLM / BoolCFGLM[earley|cky]) + up to 20 (30 thorough) operations "
-    "p_next / call / chart / clear_cache / grammar transformation / cold long context (520-700 tokens), "
+    "p_next / call / chart / clear_cache / grammar transformation / cold long context (520-700 tokens) / one sweep over all contexts of length <= 2 in a drawn order, "
     "contexts drawn as extension, sibling or prefix of earlier contexts, repeats or fresh strings; after "
     "every step the answer is compared with a fresh object's answer and the grammar snapshot with the "
     "initial one; non-trivial = the history contains a sibling extension after a longer query, a "
@@ -48,7 +48,7 @@ PURE_OPS = ["prefix_grammar", "cnf", "derivative", "prefix_weight", "call", "mat
 
 
 def examples(tier):
-    return 160 if tier == "quick" else 2400
+    return 8000 if tier == "quick" else 60000
 
 
 def steps(tier):
@@ -58,7 +58,7 @@ def steps(tier):
 @st.composite
 def init_strategy(draw, tier="quick"):
     regime = draw(st.sampled_from(["FLOAT", "FLOAT", "BOOL"]))
-    raw = draw(gen.raw_grammar(max_nt=3, max_rules=6, max_terms=2))
+    raw = draw(gen.raw_grammar(max_nt=4, max_rules=7, max_terms=3, corner_rate=0.5))
     loopy = draw(st.integers(0, 9)) < 4
     if loopy:
         # grammars for long contexts: a non-recursive core plus the left-recursive loop
@@ -195,6 +195,7 @@ class Sim:
         self.cleared = False
         self.seen = set()
         ctx.cls("kind:" + self.kind, "regime:" + init["g"]["regime"], "loopy" if init.get("loopy") else None)
+        ctx.cls(*("g:" + c for c in gen.classify(init["g"])))
 
     def fresh_answer(self, op):
         key = repr(op)
@@ -323,6 +324,7 @@ def run_machine(tier, hseed, n_examples, account, process, state):
             self.sim = None
             self.ctx = Ctx()
             self.contexts = [()]
+            self.swept = False
 
         @initialize(init=init_strategy(tier))
         def setup(self, init):
@@ -383,6 +385,17 @@ def run_machine(tier, hseed, n_examples, account, process, state):
         @rule()
         def clear(self):
             self._do(["clear"])
+
+        @precondition(lambda self: self.sim is not None and not self.swept and len(self.V) >= 1)
+        @rule(data=st.data())
+        def sweep(self, data):
+            "every context of length <= 2 (<= 1 for 3 terminals... all of them), in a drawn order"
+            self.swept = True
+            n = 2 if len(self.V) <= 2 else data.draw(st.integers(1, 2))
+            ctxs = [list(c) for c in gen.all_strings(self.V, n)]
+            for i in data.draw(st.permutations(range(len(ctxs)))):
+                self.contexts.append(tuple(ctxs[i]))
+                self._do([data.draw(st.sampled_from(["p_next", "p_next", "call"])), ctxs[i]])
 
         @rule(data=st.data())
         def pure(self, data):
